@@ -198,13 +198,37 @@ pub fn grid_for(n: usize) -> usize {
 /// the program of `Butterfly{n}` in direction `d`: (grid N, instructions as (op, a, b), output registers re/im interleaved)
 /// op codes: 0 = input a; 1 = constant cos(2 pi a / N); 2 = add; 3 = sub; 4 = mul; 5 = neg
 pub fn extract(n: usize, d: FftDirection) -> Result<(usize, Vec<(u8, u32, u32)>, Vec<u32>), String> {
+    extract_with(n, 0, &|| make::<Sym>(n, d).into())
+}
+
+/// entry: 0 = process_with_scratch, 1 = process_outofplace_with_scratch, 2 = process_immutable_with_scratch
+/// (scratch of exactly the advertised length, scratch and output pre-filled with fresh symbolic zeros)
+pub fn extract_with(n: usize, entry: usize, build: &dyn Fn() -> std::sync::Arc<dyn Fft<Sym>>) -> Result<(usize, Vec<(u8, u32, u32)>, Vec<u32>), String> {
     ARENA.with(|a| a.borrow_mut().clear());
     BAD.with(|c| c.set(0));
-    let fft = make::<Sym>(n, d);
+    let fft = build();
     let mut buf: Vec<Complex<Sym>> = (0..n).map(|k| Complex::new(push(Node::Inp(2 * k as u32)), push(Node::Inp(2 * k as u32 + 1)))).collect();
-    fft.process_with_scratch(&mut buf, &mut []);
+    let zeros = |m: usize| -> Vec<Complex<Sym>> { (0..m).map(|_| Complex::new(Sym::zero(), Sym::zero())).collect() };
+    match entry {
+        0 => {
+            let mut s = zeros(fft.get_inplace_scratch_len());
+            fft.process_with_scratch(&mut buf, &mut s);
+        }
+        1 => {
+            let mut s = zeros(fft.get_outofplace_scratch_len());
+            let mut out = zeros(n);
+            fft.process_outofplace_with_scratch(&mut buf, &mut out, &mut s);
+            buf = out;
+        }
+        _ => {
+            let mut s = zeros(fft.get_immutable_scratch_len());
+            let mut out = zeros(n);
+            fft.process_immutable_with_scratch(&buf, &mut out, &mut s);
+            buf = out;
+        }
+    }
     if BAD.with(|c| c.get()) != 0 {
-        return Err(format!("Butterfly{}: {} non-ring operations on the element type (comparison / division / abs …)", n, BAD.with(|c| c.get())));
+        return Err(format!("length {}: {} non-ring operations on the element type (comparison / division / abs …)", n, BAD.with(|c| c.get())));
     }
     let arena = ARENA.with(|a| a.borrow().clone());
     let grid = grid_for(n);
@@ -306,9 +330,49 @@ pub fn k12(args: &[String]) {
     }
 }
 
+/// does the scalar plan of `n` consist of butterflies, mixed radix, Good-Thomas and radix-N/4 steps only?
+/// (Rader and Bluestein divide by the inner length: not a ring operation of the symbolic type)
+fn prime_free(n: usize) -> bool {
+    let t = crate::k2::recipe_line("scalar", n);
+    !t.starts_with("ERR") && !t.contains("Raders") && !t.contains("Bluesteins")
+}
+
+/// T8: whole transforms planned by `FftPlannerScalar` (what `FftPlanner` falls back to for a third element type),
+/// every length up to `hi` whose plan has no Rader / Bluestein node, both directions, all three entry points
+pub fn genplanned(hi: usize) {
+    let stdout = std::io::stdout();
+    let mut out = std::io::BufWriter::new(stdout.lock());
+    let mut names = vec![];
+    for n in 2..=hi {
+        if !prime_free(n) {
+            continue;
+        }
+        for (d, tag) in [(FftDirection::Forward, "F"), (FftDirection::Inverse, "I")] {
+            for entry in 0..3usize {
+                let r = extract_with(n, entry, &|| rustfft::FftPlannerScalar::<Sym>::new().plan_fft(n, d));
+                match r {
+                    Ok((grid, code, outs)) => {
+                        let body: Vec<String> = code.iter().map(|(o, a, b)| format!("({},{},{})", o, a, b)).collect();
+                        let outs_s: Vec<String> = outs.iter().map(|o| o.to_string()).collect();
+                        let name = format!("plan{}{}{}", n, tag, ["inplace", "oop", "immut"][entry]);
+                        writeln!(out, "def {} : RawProg := {{ n := {}, grid := {}, inverse := {},\n  code := [{}],\n  outs := [{}] }}\n", name, n, grid, if tag == "I" { "true" } else { "false" }, body.join(","), outs_s.join(",")).unwrap();
+                        names.push(name);
+                    }
+                    Err(e) => {
+                        eprintln!("T8 failed closed: {}", e);
+                        std::process::exit(3);
+                    }
+                }
+            }
+        }
+    }
+    writeln!(out, "def allPlanned : List RawProg := [{}]", names.join(", ")).unwrap();
+}
+
 pub fn run(args: &[String]) {
     match args[0].as_str() {
         "gen" => gen(),
+        "genplanned" => genplanned(args[1].parse().unwrap()),
         "k12" => k12(&args[1..]),
         _ => panic!("bfx gen | bfx k12 <count>"),
     }
